@@ -352,7 +352,7 @@ def canon_dyn_out(line):
 
 def dynamic_check(ctx, invalid, total, rule, modelled=True):
     prop_file = os.path.join(COQ, "theories", "Properties", "%s.v" % ctx.prop)
-    extra = tuple(x for x in ("C08dummy", "C08att") if os.path.exists(os.path.join(COQ, "theories", "Properties", x + ".v")))
+    extra = ("C08dummy", "C08att", "C08poly")
     proofs_ok = check_proofs(ctx, extra_props=extra)     # a missing Properties file is a failed obligation
     h = build_harness(ctx)
     d = build_driver(ctx)
@@ -517,6 +517,7 @@ def dynamic_check(ctx, invalid, total, rule, modelled=True):
         "not_modelled": stats["not_modelled"],
     })
     ctx.cov["not_yet_proved"] = NOT_YET_PROVED
+    poly_oracle_tie(ctx)
     ctx.floor("histories_compared_with_the_model", sum(stats["compared_with_model"].values()))
     ctx.floor("recorded_sat_answers_validated", stats.get("sat_answers_validated", 0))
     ctx.assumptions += [
